@@ -5,18 +5,21 @@ From NV Require Import Bytes GenConsts ReSyntax ReParse.
 Import ListNotations.
 
 (* ---- rnode_count (the reservation) --------------------------------------------------------- *)
-Definition rep_count (n mn mx : Z) : Z :=
-  if ((mn =? 0) && (mx =? 0))%Z then 0%Z
-  else if ((mn =? 1) && (mx =? 1))%Z then n
+(* return n < NINST ? n : NINST;   (NINST < 0 here = the source has no such limit) *)
+Definition sat (n : Z) : Z := if (NINST <? 0)%Z then n else if (n <? NINST)%Z then n else NINST.
+Definition rep_raw (n mn mx : Z) : Z :=
+  if ((mn =? 1) && (mx =? 1))%Z then n
   else ((if (mx <? 0)%Z then (mn + 1) * n + 1 else (mn + mx) * n + mx - mn) + (if (mn =? 0)%Z then 1 else 0))%Z.
+Definition rep_count (n mn mx : Z) : Z :=
+  if ((mn =? 0) && (mx =? 0))%Z then 0%Z else sat (rep_raw n mn mx).
 
 Fixpoint count (t : node) : Z :=
   match t with
   | NNil => 0%Z
   | NAtom _ mn mx => rep_count 1 mn mx
   | NGrp x _ mn mx => rep_count (count x + 2) mn mx
-  | NCat x y => (count x + count y)%Z
-  | NAlt x y => (count x + count y + 2)%Z
+  | NCat x y => rep_count (count x + count y) 1 1
+  | NAlt x y => rep_count (count x + count y + 2) 1 1
   end.
 
 (* ---- rnode_grpnum: groups are numbered in pre-order, starting from num ---------------------- *)
@@ -68,6 +71,22 @@ Fixpoint nlen (t : node) : nat :=
   | NAlt x y => nlen x + nlen y + 2
   end.
 
+(* the same length in Z (for big programs; zlen t = Z.of_nat (nlen t) for well-formed counts) *)
+Definition zrep_len (n mn mx : Z) : Z :=
+  if ((mn =? 0) && (mx =? 0))%Z then 0%Z
+  else if ((mn =? 1) && (mx =? 1))%Z then n
+  else
+    let c := Z.max 1 mn in
+    ((if (mn =? 0)%Z then 1 else 0) + c * n + (if (mx <? 0)%Z then 1 else Z.max 0 (mx - c) * (1 + n)))%Z.
+Fixpoint zlen (t : node) : Z :=
+  match t with
+  | NNil => 0%Z
+  | NAtom _ mn mx => zrep_len 1 mn mx
+  | NGrp x _ mn mx => zrep_len (zlen x + 2) mn mx
+  | NCat x y => (zlen x + zlen y)%Z
+  | NAlt x y => (zlen x + zlen y + 2)%Z
+  end.
+
 Fixpoint emit_n (t : node) (b : nat) : list instr :=
   match t with
   | NNil => []
@@ -86,6 +105,8 @@ Definition regcomp (pat : bytes) : res (option prog) :=
   match fst r with
   | None => Ok None
   | Some t =>
+    if ((0 <=? NINST) && (NINST <=? count t + 3))%Z then Ok None       (* if (n >= NINST) reject *)
+    else
     let t' := fst (grpnum t 1) in
     Ok (Some {| code := [IMark 0] ++ emit_n t' 1 ++ [IMark 1; IMatch]; reserve := (count t + 3)%Z; tree := t' |})
   end.
